@@ -164,6 +164,30 @@ def replay_known(chk):
     chk.merge(r)
 
 
+def work_long_keys(job):
+    """very long single keys of the search tables (thorough tier): the abbreviation / glossary trie is prepared by a function that calls itself once per
+    key byte; run on the uninstrumented build with the shipped flags under the default 8 MiB stack"""
+    from props import c07
+    seed, form, n = job
+    r = core.JobResult()
+    unit = b'ab'
+    key = unit * (n // len(unit))
+    src = form % (key, key)
+    res = c07.run_cost('plain', D.FMT['html'], D.EXT_CLI, src, timeout=1500)
+    r.evaluations += 1
+    r.stats['long_key_runs'] += 1
+    case = dict(note='source = %r %% (key, key) with key = b"ab" * %d; harness/cost on the plain build, RLIMIT_STACK 8 MiB' % (form, n // 2), key_bytes=n)
+    if res['rc'] == 'timeout':
+        r.inconclusive.append('long key of %d bytes: no result within the time limit' % n)
+    elif res['rc'] != 0:
+        import signal
+        sig = signal.Signals(-res['rc']).name if isinstance(res['rc'], int) and res['rc'] < 0 else 'rc%s' % res['rc']
+        r.violate('crash:%s:search-table-key-of-%d-bytes' % (sig, n), 'a %d-byte abbreviation/glossary key: the child ended with %s under an 8 MiB stack' % (n, sig), case, res.get('err'))
+    else:
+        r.distinct.add(('longkey', form, n))
+    return r
+
+
 def main():
     chk = core.Check(ID)
     n = chk.scale(20000, 1500000)
@@ -178,6 +202,8 @@ def main():
     chk.run_jobs(work, jobs)
     nm = chk.scale(3200, 80000)
     chk.run_jobs(work_memcheck, [(chk.seed, lo, min(nm, lo + 40)) for lo in range(0, nm, 40)])
+    if chk.thorough:
+        chk.run_jobs(work_long_keys, [(chk.seed, b'[>%s]: x\n\ntext %s\n', 200000), (chk.seed, b'[?%s]: x\n\nterm [?%s]\n', 20000), (chk.seed, b'[>%s]: x\n\ntext %s\n', 2000)])
     if chk.thorough and os.environ.get('VERIF_NO_FUZZ') != '1':
         from lib import fuzz
         fuzz.run(chk, runs=int(200000 * float(os.environ.get('VERIF_SCALE', '1') or 1)))
